@@ -141,7 +141,9 @@ CHECKS = {
  "C15": dict(
    cat="proof",
    text="cop_serialize_value / cop_deserialize_value enforced against contracts written from the wire format, per tag; round trip as a lemma over the two contracts: "
-        "void,int,float,bool,opaque and strings of any length/content (U); non-transferable tags recorded; request-buffer capacity obligation (known finding).",
+        "void,int,float,bool,opaque and strings of any length/content (U); non-transferable tags recorded; vm_ffi_call_cop: a request whose image fits the protocol maximum "
+        "IS sent (no refusal for lack of buffer space) and a well-formed reply IS accepted with exactly the decoded value (caller-view obligations, run with the protocol "
+        "constant COP_MAX_PAYLOAD scaled down in the TU under proof = bounded in that one constant).",
    ref="DESIGN 5/C15", note=TB + " Arrays: not closed (recorded). Foreign function behaviour in another process: not decided.",
    tech="CBMC DFCC function contracts on the real cop_protocol.c / vm_ffi.c, case split over value tags"),
  "C16": dict(
